@@ -218,6 +218,28 @@ def run_case(case):
                         "rows=%r alone/sub-batch %s, inside the large batch %s %s" % (idx[:5], numpy.array2string(g.ravel()[:6], precision=6),
                                                                                       numpy.array2string(x.ravel()[:6], precision=6), desc0))
                     break
+    # repeated calls with other query dtypes in between: a float32 / integer batch must not leave a trace in the model
+    if kind in ("reg", "clf", "cluster", "poly"):
+        try:
+            d3 = dict(dat)
+            d3["X"] = dat["X"] / 3.0 + 0.1           # coordinates (hence centres, thresholds) not float32-representable
+            numpy.random.seed(0)
+            e3 = e["variants"][case["variant"]]()
+            K.fit(e3, kind, d3)
+            P3 = numpy.vstack([d3["X"], d3["X"] * 1.0000001 + 1e-7])
+            for mm in methods:
+                first = _call(e3, mm, P3, kind)
+                for dt in (numpy.float32, numpy.int64):
+                    try:
+                        _call(e3, mm, P3.astype(dt), kind)
+                    except Exception:
+                        pass
+                again = _call(e3, mm, P3, kind)
+                cnt += 3
+                if not _eq_exact(first, again):
+                    bad("%s: repeated calls disagree after a call with another dtype" % mm, "float32/int64 batch in between", desc0)
+        except Exception:
+            pass     # fitting on the rescaled data is not this clause's business
     # persistence
     def op_pickle(o):
         return pickle.loads(pickle.dumps(o))
